@@ -69,6 +69,14 @@ def gen_case(r):
     elif r.random() < 0.3:
       p['plan'] = r.choice(['with', 'nowith'])
   case['preds'] = preds
+  # a flag parameter used in the definitions (also of grounded predicates): default or a command line value
+  if r.random() < 0.35:
+    case['flag'] = {'default': str(r.randint(0, 3)), 'user': r.choice([None, str(r.randint(0, 3))])}
+    users = [p for p in preds if r.random() < 0.5] or [r.choice(preds)]
+    if not any(p['ground'] for p in users):
+      users.append(r.choice([p for p in preds if p['ground']]))
+    for p in users:
+      p['rules'][0] = dict(p['rules'][0], shape='flag')
   pn = [p['name'] for p in preds]
   pn = pn + pn[len(pn) // 2:] * 2                       # later predicates (more dependencies) more often
   gn = [p['name'] for p in preds if p['ground']]
@@ -96,6 +104,8 @@ def rule_text(p, rule):
     return head % 'x, y' + ' :- %s(x, y);' % rule['s1']
   if s == 'filter':
     return head % 'x, y' + ' :- %s(x, y), x >= %d;' % (rule['s1'], rule['c'])
+  if s == 'flag':
+    return head % 'x, y' + ' :- %s(x, y), ToString(x) != "${lim}";' % rule['s1']
   if s == 'swap':
     return head % 'y, x' + ' :- %s(x, y);' % rule['s1']
   if s == 'plus':
@@ -109,6 +119,8 @@ def program(case, grounded=True, file_path=FILE_TOKEN):
   lines = ['@Engine("sqlite");']
   if grounded:
     lines.append('@AttachDatabase("%s", "%s");' % ({'db': 'db', 'home': 'logica_home', 'test': 'logica_test'}[case['db']], file_path))
+  if case.get('flag'):
+    lines.append('@DefineFlag("lim", "%s");' % case['flag']['default'])
   for n in ('D', 'E'):
     for row in case[n]:
       lines.append('%s(%d, %d);' % (n, row[0], row[1]))
@@ -224,6 +236,8 @@ def run_history(case):
       res['problems'].append('generator produced a cyclic program')
       return res
     order, deps = g
+    uflags = {'lim': case['flag']['user']} if case.get('flag') and case['flag']['user'] is not None else {}
+    res['user_flags'] = uflags
     idx = {n: i for i, n in enumerate(order)}
     gp = {p['name']: p for p in case['preds'] if p['ground']}
     tab = {n: table_of(case, p) for n, p in gp.items()}
@@ -232,7 +246,7 @@ def run_history(case):
     # oracle: bags computed without @Ground (a different plan through the compiler)
     oracle = {}
     for n in set(case['history']) | set(gp):
-      st, h, rows = lr.run_pred(plain, n, decode=False)
+      st, h, rows = lr.run_pred(plain, n, decode=False, user_flags=uflags)
       if st != 'ok':
         res['problems'].append('oracle run (program without @Ground) of %s failed: %s %s' % (n, st, str(h)[:200]))
         return res
@@ -248,7 +262,7 @@ def run_history(case):
       con.close()
     for step, main in enumerate(case['history']):
       tag = 'step %d (run %s): ' % (step, main)
-      st, comp = lr.compile_pred(text, main)
+      st, comp = lr.compile_pred(text, main, user_flags=uflags)
       if st != 'ok':
         res['problems'].append(tag + 'does not compile: %s %s' % (st, str(comp)[:300]))
         break
